@@ -43,6 +43,33 @@ def run(ctx):
             for i, ln in enumerate(fh):
                 if i % 4001 == 3 and len(ctx.cov["samples"]) < 4:
                     ctx.cov["samples"].append(json.loads(ln))
+    # fractions of real size and every form: document blocks (many per fraction, 4 KiB blocks in half of the shapes),
+    # ID blocks, a second fraction sealed in the same process, restart: IndexLayout.tla's shapes (C03's machinery),
+    # fetch lists around the ID-block borders with absent IDs mixed in
+    import re
+    from checks import c03
+    sdrv = vlib.build_driver("shapes")
+    scf, ssumm = c03.replay_shapes(ctx, sdrv, "IndexLayout_real_small.cfg" if quick else "IndexLayout_real.cfg", "fetch:big", only_fetch=True)
+    c03.pooled_seal_stage(ctx, sdrv, scf, "fetch:big")
+    for k in tot:
+        tot[k] += ssumm[k]
+    # fractions that are skipped by their time range / occupancy map (Sealed.Contains): TimePrune.tla's real stores (C14's module)
+    tdrv = vlib.build_driver("timeprune")
+    tf = os.path.join(ctx.scratch, "fetch-time.jsonl")
+    r = vlib.run_tlc(ctx, "TimePrune.tla", "TimePrune_real.cfg", case_file=tf, heap="3g", timeout=3400, workers=1,
+                     simulate="num=%d" % (120 if quick else 600), depth=7)
+    if r.violated:
+        raise vlib.Infra("TLC: %s violated in TimePrune.tla" % r.violated)
+    vlib.require_tlc_ok(r, "TimePrune real (for C04)")
+    mism, summ, _ = vlib.run_cases(ctx, tdrv, ["-mode", "e2e", "-workers", str(vlib.NCPU)], tf, label="fetch-time", timeout=3000, chunk=500)
+    for k in tot:
+        tot[k] += summ[k]
+    for m in mism:
+        if m.get("level") == "conformance" or "fetch" not in str(m.get("what", "")):
+            continue
+        what = re.sub(r"\d+", "N", str(m.get("what", "")))
+        ctx.violation("fetch:time:%s:%s" % (m.get("path", m.get("form")), what[:48]), m,
+                      what="a stored document is not fetched from a fraction that is consulted by time range: " + str(m.get("what"))[:160])
     ctx.cov["traces_validated_against_impl"] = tot["cases"]
     ctx.cov["evaluations"] = tot["evals"]
     ctx.cov["distinct_nontrivial"] = tot["nontrivial"]
